@@ -32,11 +32,7 @@ CFG_DESIGN = """CONSTANTS
   Choices <- MCChoices
   TMax = {tmax}
 SPECIFICATION Spec
-INVARIANT ChildWithinParent
-INVARIANT SeqExclusive
-INVARIANT SeqTextNeverShown
-INVARIANT OneInterval
-INVARIANT ExplicitBounds
+INVARIANT DesignInv
 """
 CFG_ENUM = """CONSTANTS
   Shapes <- MCShapes
